@@ -54,6 +54,24 @@ def run(ctx):
     vlib.write_ndjson(f, [dict(nT=r["nT"], nS=r["nS"], rules=r["rules"], inputs=r["inputs"]) for r, _ in cands])
     comp = vlib.read_ndjson(lc.dump(ctx, f, f + ".rec"))
     pairs = [cands[i] for i, c in enumerate(comp) if not c["compiles"][0]["err"]][: (150 if thorough else 24)]
+    # nested recovery contexts: two error rules with different synchronisation tokens, so that the token of the inner rule
+    # also occurs where only the outer rule can recover (and vice versa)
+    def nested(variant):
+        a, b, c, d, E = 1, 2, 3, 4, 5
+        S, Ls, St, T = 6, 7, 8, 9
+        rules = [dict(lhs=S, rhs=[Ls]), dict(lhs=Ls, rhs=[Ls, St]), dict(lhs=Ls, rhs=[St]), dict(lhs=St, rhs=[T, b]), dict(lhs=T, rhs=[a])]
+        if variant == 0:
+            rules += [dict(lhs=T, rhs=[c, T, d])]
+            err = [dict(lhs=St, rhs=[E, b]), dict(lhs=T, rhs=[c, E, d])]
+        elif variant == 1:
+            rules += [dict(lhs=T, rhs=[c, Ls, d])]
+            err = [dict(lhs=St, rhs=[E, b]), dict(lhs=T, rhs=[c, E, d])]
+        else:
+            rules += [dict(lhs=T, rhs=[c, T, d]), dict(lhs=T, rhs=[T, a])]
+            err = [dict(lhs=St, rhs=[E, b]), dict(lhs=T, rhs=[c, E, d]), dict(lhs=St, rhs=[a, E, b])]
+        base = dict(nT=6, nS=10, rules=rules, inputs=[dict(nt=S, eoi=True)], alph=[a, b, c, d])
+        return dict(base, rules=rules + err, errTerm=E), base
+    pairs += [nested(v) for v in (0, 1, 2)]
     L = 6 if thorough else 5
     specs = []
     for recg, baseg in pairs:
@@ -74,8 +92,17 @@ def run(ctx):
     vlib.write_ndjson(jf, joined)
     vlib.validate_cases(ctx, "ParseTrace", "ParseTraceRec.cfg", jf, label="recovery", timeout=3300, **kw)
     ctx.cov["programs"] = len(joined)
+    # the shipped recovering parsers (tm, js) on valid, mutated and broken repository texts
+    sp = ctx.path("shipped.ndjson")
+    ctx.vhrun(["c20-parse", "20000" if thorough else "3000", sp], timeout=3000)
+    rows = [r for r in vlib.read_ndjson(sp) if r.get("parser") in ("tm", "js")]
+    vlib.write_ndjson(sp, rows)
+    vlib.validate_cases(ctx, "C19Shipped", "C19Shipped.cfg", sp, label="shipped", timeout=3000,
+                        sig=lambda c: "shipped:%s:%s" % (c.get("parser"), c.get("origin")), sigv=lambda c, rec, v: "%s:shipped:%s:%s:%s" % (v, c.get("parser"), c.get("origin"), (c.get("text") or "")[:60]),
+                        rerun=None, input_keys=["parser", "origin", "text", "len"], observed_keys=["crash", "errs", "err"],
+                        nontrivial=lambda c: len(c.get("errs", [])) >= 2)
     ctx.cov["rule"] = ("%d conflict-free grammars (<= 2 real terminals) extended with 1-2 recovery rules over the 'error' terminal, each generated with and without them and run on all "
                        "token strings <= %d; TLC checks termination/no panic, handler offsets monotone and inside the input, transparency on sentences (events and result equal the "
                        "non-recovering parser's), and that non-sentences are never accepted silently. Non-trivial: parsers whose handler was called on some input." % (len(joined), L))
-    ctx.assumptions += ["the error token is rendered as the tm 'error:' token; recovery rules are appended so that node numbering of the base rules is unchanged",
+    ctx.assumptions += ["shipped tm/js parsers: termination, no panic and ordered in-range error offsets on mutated repository texts (no twin to compare with)", "the error token is rendered as the tm 'error:' token; recovery rules are appended so that node numbering of the base rules is unchanged",
                         "shipped js/tm/test parsers are monitored for these invariants by the C20 check's inputs (when built)"]
